@@ -188,6 +188,66 @@ def run_solve(case):
     return tr
 
 
+def _capture_cnf(m, xs, tr):
+    """encode the live model and capture what would be handed to solve_sat (no SAT solving)"""
+    import solvor.cp_encoder as enc_mod
+    from solvor.types import Result, Status
+    got = {}
+
+    def fake(clauses, **kw):
+        got["cnf"] = [list(c) for c in clauses]
+        return Result(None, 0, 0, 0, Status.INFEASIBLE)
+
+    orig = enc_mod.solve_sat
+    enc_mod.solve_sat = fake
+    try:
+        enc = enc_mod.SATEncoder(m)
+        enc.solve()
+        cnf = got.get("cnf")
+        if cnf is None:
+            cnf = [list(c) for c in enc._clauses]
+            tr["early_exit"] = True
+        tr["cnf"] = cnf
+        tr["bmap"] = [[x.bool_vars[v] for v in range(x.lb, x.ub + 1)] for x in xs]
+        tr["nbool"] = max([abs(l) for c in cnf for l in c] + [0])
+        tr["events"] = []
+    except Exception as ex:  # noqa: BLE001
+        tr["kind"] = "solve"
+        tr["events"] = [{"e": "raise", "what": type(ex).__name__}]
+    finally:
+        enc_mod.solve_sat = orig
+    return tr
+
+
+def run_enc_history(case):
+    """C06 over call histories of one Model object: build the base model, really solve it with the SAT path (the encoder
+    registers auxiliary variables in the model and draws booleans), THEN declare further variables / constraints on the
+    same object, and capture the CNF of the next encoding.  The semantic record is the complete (extended) model."""
+    base = {"vars": case["vars"][: case["nbase"]], "cons": [c for c in case["cons"][: case["cbase"]]], "solves": []}
+    try:
+        m, xs, sem = build(base)
+    except Unsupported:
+        return {"unsupported": True}
+    try:
+        for _ in range(case.get("presolves", 1)):
+            m.solve(solver="sat", solution_limit=case.get("prelimit", 1))
+    except Exception as ex:  # noqa: BLE001
+        tr = _base(case, sem, "solve")
+        tr["events"] = [{"e": "raise", "what": type(ex).__name__}]
+        return tr
+    try:
+        for name, lb, ub in case["vars"][case["nbase"]:]:
+            xs.append(m.int_var(lb, ub, name) if name is not None else m.int_var(lb, ub))
+        _, _, semfull = build({"vars": case["vars"], "cons": case["cons"], "solves": []})
+        for t in _constraints_on(m, xs, case["cons"][case["cbase"]:]):
+            m.add(t)
+    except Unsupported:
+        return {"unsupported": True}
+    tr = _base(case, semfull, "enc")
+    tr["history"] = True
+    return _capture_cnf(m, xs, tr)
+
+
 def run_solve_history(case):
     """C05 over call histories of one Model object: build the base model, solve it under every configuration (the encoder adds
     auxiliary variables to the model as a side effect), THEN declare further variables / constraints on the same object and
@@ -249,10 +309,13 @@ def _constraints_on(m, xs, cons):
     return out
 
 
-def gen_history_case(rng):
+def gen_history_case(rng, aux=False):
     """base model with 2-3 variables and 1-2 constraints, extended by one variable and one constraint that uses it"""
     c = gen_case(rng)
     nv = len(c["vars"])
+    while aux and nv < 4:
+        c["vars"].append(["x%d" % nv, rng.randint(0, 1), rng.randint(2, 3)])
+        nv += 1
     if nv < 3:
         c["vars"].append(["x%d" % nv, rng.randint(0, 1), rng.randint(2, 3)])
         nv += 1
@@ -261,7 +324,11 @@ def gen_history_case(rng):
     doms = [[lb, ub] for _, lb, ub in c["vars"]]
     for _ in range(rng.randint(1, 2)):
         base_cons.append(gen_con(rng, nbase, doms[:nbase]))
-    ext = [gen_con(rng, nv, doms)]
+    if aux and nbase >= 3:      # a base constraint whose encoding creates auxiliary variables (partial sums / positions)
+        k = rng.choice(["sum_eq", "sum_le", "sum_ge", "circuit"])
+        vs = rng.sample(range(nbase), 3)
+        base_cons.append(["circuit", vs] if k == "circuit" else [k, vs, rng.randint(2, 6)])
+    ext = [gen_con(rng, nv, doms)] if rng.random() < 0.8 else []
     if rng.random() < 0.6:
         ext.append(["sum_le", [rng.randrange(nbase), nv - 1], rng.randint(1, 5)])
     c["cons"] = base_cons + ext
